@@ -4,7 +4,7 @@ import ast
 from ..core.model import AnchorError, FuncInfo
 from ..core.cfg import walk_shallow, cfg_of
 from ..core.facts import U, atoms_of
-from ..engine import argn, fn_name, kwarg, stmts_in
+from ..engine import argn, fn_name, kwarg, stmts_in, returns_of
 from ..kinds import extapi
 from . import c01, c12, c14, common
 
@@ -186,6 +186,19 @@ def run(ctx, rep, tier="quick"):
     # nothing remains (shared with C14-S6)
     from . import c14
     c14.s6b(ctx, rep, clause="S4")
+    c14.failed_trial_leaves_pending(ctx, rep, "S4")
+    # the limit: the run carries on while the number of failures does not EXCEED max_failures, and ends with the error when it does
+    g_ = ctx.P.method("Tuner", "_stop_condition")
+    rv_ = [r.value for r in returns_of(g_)]
+    lim = ("lt", "self.max_failures", "self.tuning_status.num_trials_failed")
+    ok_ = len(rv_) == 1 and any(lim in atoms_of(v, True) for v in (rv_[0].values if isinstance(rv_[0], ast.BoolOp) else [rv_[0]]))
+    rep.put(ok_, "S5", "agreement", "Tuner._stop_condition: the failure limit is num_trials_failed > max_failures", g_, None, "",
+            "the run ends when the number of failures merely reaches the allowed limit (or never ends on failures)")
+    r_ = ctx.P.method("Tuner", "run")
+    nodes = [n for n, c in call_nodes(ctx, r_, lambda c: fn_name(c) == "_handle_failure")]
+    require_guard(ctx, rep, "S5", r_, "Tuner.run: the failure error is raised | num_trials_failed > max_failures", nodes,
+                  [("num_trials_failed > max_failures", lambda a: a == lim + (True,) or a == lim or (a[0] == "lt" and a[1] == lim[1] and a[2] == lim[2]))],
+                  "a run with an allowed number of failures ends with an error (or one with too many ends silently)")
     # DEHB: a slot gets a trial id only together with the metric of the winner that is returned to the bracket; a failed job's
     # slot therefore stays (None, NaN) and is never taken as a parent for promotion
     dc = ctx.P.cls("DifferentialEvolutionHyperbandScheduler")
